@@ -415,7 +415,7 @@ func c11sRounds(tier string, seed uint64) []c11sRoundCfg {
 	}
 	out := base
 	if tier == "thorough" {
-		for rep := 0; rep < 3; rep++ {
+		for rep := 0; rep < 8; rep++ {
 			out = append(out,
 				c11sRoundCfg{Name: "limits-off", Kind: "listing", Flags: flags("--max-receivers-per-sender", "0")},
 				c11sRoundCfg{Name: "hub-jitter", Kind: "listing", Flags: flags("--max-receivers-per-sender", "0"), Hooks: jit()},
